@@ -39,6 +39,9 @@ impl Vector {
 
     pub fn clone_vector(&self, start: Option<usize>, end: Option<usize>) -> Vec<VCell> {
         let v = self.vector.borrow();
+        if v.is_empty() {
+            return vec![];
+        }
         let mut start = start.unwrap_or(0);
         if start > v.len() {
             start = v.len();
